@@ -33,6 +33,8 @@ type LifeOp struct {
 	End   string `json:"end,omitempty"`      // commit rollback abandon
 	Extra string `json:"extra,omitempty"`    // "" | commit | rollback | use  (after the end)
 	Conn  int    `json:"conn,omitempty"`     // cleanup-conn: whose connection
+	Big   bool   `json:"big,omitempty"`      // one of the puts carries a value above the log's record size: the commit fails as a whole
+	CtxMs int64  `json:"ctx_ms,omitempty"`   // registry begin: the request's own deadline (a remote call that gives up early)
 	D     int64  `json:"d,omitempty"`
 }
 
@@ -69,7 +71,7 @@ func runC17(t *testing.T, c LifeCase) *kit.Result {
 		}
 		var wg simsync.WaitGroup
 		tag := 0
-		abandoned, timedOut, cleaned := 0, 0, 0
+		abandoned, timedOut, cleaned, bigs := 0, 0, 0, 0
 		for ci, ops := range c.Clients {
 			ci, ops := ci, ops
 			wg.Add(1)
@@ -107,7 +109,13 @@ func runC17(t *testing.T, c LifeCase) *kit.Result {
 						id := ""
 						if op.Via == "registry" {
 							var err error
-							id, err = reg.Begin(ctx, e, op.RO)
+							bctx := ctx
+							if op.CtxMs > 0 {
+								var cancel context.CancelFunc
+								bctx, cancel = context.WithTimeout(ctx, time.Duration(op.CtxMs)*time.Millisecond)
+								defer cancel()
+							}
+							id, err = reg.Begin(bctx, e, op.RO)
 							if err != nil {
 								timedOut++
 								simrt.Note("client %d: begin failed: %v", ci, err)
@@ -137,6 +145,12 @@ func runC17(t *testing.T, c LifeCase) *kit.Result {
 								break
 							}
 							pending = v
+						}
+						if op.Big && !op.RO && usable {
+							// accepted by the transaction, refused by the log at commit time
+							if err := tx.Put([]byte(fmt.Sprintf("life/c%d/big", ci)), kit.MakeValue(uint32(tag+900000), 40000)); err == nil {
+								bigs++ // if the commit fails nothing of it may show; if it succeeds all of it does
+							}
 						}
 						if op.Think > 0 {
 							simrt.Sleep(time.Duration(op.Think) * time.Millisecond)
@@ -227,6 +241,7 @@ func runC17(t *testing.T, c LifeCase) *kit.Result {
 		res.Probes["abandoned"] += int64(abandoned)
 		res.Probes["begin_timeouts"] += int64(timedOut)
 		res.Probes["connection_cleanups"] += int64(cleaned)
+		res.Probes["commits_failing_on_an_oversized_entry"] += int64(bigs)
 		res.Nontrivial = len(c.Clients) >= 2
 		res.Note = fmt.Sprintf("%d clients, %d abandoned transactions, %d begin time-outs, %d connection clean-ups, shutdown=%v", len(c.Clients), abandoned, timedOut, cleaned, c.Shutdown)
 		if !c.Shutdown {
@@ -254,6 +269,10 @@ func genLifeCase(r *kit.Rand, tier string) LifeCase {
 					End: kit.PickOf(r, "commit", "commit", "rollback"), Extra: kit.PickOf(r, "", "", "commit", "rollback", "use")}
 				if r.Bool(0.3) {
 					op.Think = int64(kit.PickOf(r, 5, 2000, 11000, 35000))
+				}
+				op.Big = r.Bool(0.08)
+				if op.Via == "registry" && r.Bool(0.25) {
+					op.CtxMs = int64(kit.PickOf(r, 1, 300, 1900, 6000))
 				}
 				if op.Via == "registry" && r.Bool(0.2) {
 					op.End, op.Extra = "abandon", ""
